@@ -506,8 +506,16 @@ impl SwiftParser {
         // Parse headers
         let basic_header = BasicHeader::parse(&block1.unwrap_or_default())?;
         let application_header = ApplicationHeader::parse(&block2.unwrap_or_default())?;
-        let user_header = block3.map(|b| UserHeader::parse(&b)).transpose()?;
-        let trailer = block5.map(|b| Trailer::parse(&b)).transpose()?;
+        // A block 3 / block 5 without any recognised tag carries nothing: treat it as absent, so that
+        // the text written from the message and the text published from its JSON agree
+        let user_header = block3
+            .map(|b| UserHeader::parse(&b))
+            .transpose()?
+            .filter(|h| *h != UserHeader::default());
+        let trailer = block5
+            .map(|b| Trailer::parse(&b))
+            .transpose()?
+            .filter(|t| *t != Trailer::default());
 
         // Extract message type from application header
         let message_type = application_header.message_type().to_string();
@@ -558,8 +566,16 @@ impl SwiftParser {
         // Parse headers
         let basic_header = BasicHeader::parse(&block1.unwrap_or_default())?;
         let application_header = ApplicationHeader::parse(&block2.unwrap_or_default())?;
-        let user_header = block3.map(|b| UserHeader::parse(&b)).transpose()?;
-        let trailer = block5.map(|b| Trailer::parse(&b)).transpose()?;
+        // A block 3 / block 5 without any recognised tag carries nothing: treat it as absent, so that
+        // the text written from the message and the text published from its JSON agree
+        let user_header = block3
+            .map(|b| UserHeader::parse(&b))
+            .transpose()?
+            .filter(|h| *h != UserHeader::default());
+        let trailer = block5
+            .map(|b| Trailer::parse(&b))
+            .transpose()?
+            .filter(|t| *t != Trailer::default());
 
         // Extract message type from application header
         let message_type = application_header.message_type().to_string();
